@@ -10,7 +10,8 @@ cd $WT && git checkout -q -- . && git clean -fdq -e target
 DEMO=$(ls $SD/demo*.rs | head -1)
 KIND=tests; grep -qi "examples/" $SD/meta.txt && ! grep -qi "tests/seed_demo" $SD/meta.txt && KIND=examples
 mkdir -p quizx/$KIND; cp $DEMO quizx/$KIND/seed_demo.rs
-run_demo() { if [ $KIND = tests ]; then cargo test --offline -p quizx --test seed_demo >/tmp/demo-$ID.log 2>&1; else cargo run --offline -p quizx --example seed_demo >/tmp/demo-$ID.log 2>&1; fi; echo $?; }
+REL=${DEMO_RELEASE:+--release}
+run_demo() { if [ $KIND = tests ]; then cargo test $REL --offline -p quizx --test seed_demo >/tmp/demo-$ID.log 2>&1; else cargo run --offline -p quizx --example seed_demo >/tmp/demo-$ID.log 2>&1; fi; echo $?; }
 CLEAN=$(run_demo)
 git apply $SD/patch.diff || { echo "{\"id\":\"$ID\",\"error\":\"patch does not apply\"}" > $DEST/meta.json; exit 1; }
 MUT=$(run_demo)
